@@ -51,7 +51,7 @@ func init() {
 			if cf == nil {
 				return "nil"
 			}
-			return c16Control(cf)
+			return held(func() string { return c16Control(cf) })
 		})
 	})
 	// a[0] is parsed first and its result held, then a[1]: the answer for a[1] must not depend on the earlier call, and
